@@ -13,9 +13,9 @@ fn main() {
         std::process::exit(2);
     }
     let id = args[0].to_uppercase();
-    if id == "C11FUZZ" {
-        // merge the statistics of a finished libFuzzer campaign into evidence/C11.json (written just before by C11)
-        std::process::exit(merge_fuzz(&args[1..]));
+    if id == "C11FUZZ" || id == "C09FUZZ" {
+        // merge the statistics of a finished libFuzzer campaign into evidence/<ID>.json (written just before by the check)
+        std::process::exit(merge_fuzz(&id[..3], &args[1..]));
     }
     let mut tier = match std::env::var("VERIF_TIER").ok().as_deref() {
         Some("thorough") => Tier::Thorough,
@@ -78,19 +78,24 @@ fn refmath_selftest_cli() -> i32 {
     }
 }
 
-fn merge_fuzz(a: &[String]) -> i32 {
+fn merge_fuzz(prop: &str, a: &[String]) -> i32 {
     let get = |i: usize| a.get(i).and_then(|s| s.parse::<f64>().ok()).unwrap_or(0.0);
-    let path = engine::verif_dir().join("evidence").join("C11.json");
+    let path = engine::verif_dir().join("evidence").join(format!("{prop}.json"));
     let Ok(text) = std::fs::read_to_string(&path) else {
-        println!("INCONCLUSIVE: no evidence/C11.json to merge fuzz statistics into");
+        println!("INCONCLUSIVE: no evidence/{prop}.json to merge fuzz statistics into");
         return 2;
+    };
+    let (target, seeds) = if prop == "C09" {
+        ("harness/fuzz/fuzz_targets/c09_program.rs, programs of up to 400 operations through the same interpreter and multiset model as the proptest driver", "harness/fuzz/seeds-c09 (one short program per state type + the empty input)")
+    } else {
+        ("harness/fuzz/fuzz_targets/c11_total.rs, same classifier as the other drivers", "harness/fuzz/seeds (one input per entry point x 3 flag patterns + the empty input)")
     };
     let Ok(mut v) = serde_json::from_str::<serde_json::Value>(&text) else { return 2 };
     let runs = get(0) as u64;
     v["coverage"]["fuzz"] = serde_json::json!({
-        "engine": "libFuzzer via cargo-fuzz 0.13 (target harness/fuzz/fuzz_targets/c11_total.rs, same classifier as the other drivers; overflow checks on, debug assertions off)",
+        "engine": format!("libFuzzer via cargo-fuzz 0.13 (target {target}; overflow checks on, debug assertions off)"),
         "runs": runs, "coverage_edges": get(1) as u64, "features": get(2) as u64, "corpus_inputs": get(3) as u64, "seconds": get(4), "crashed": get(5) != 0.0,
-        "seed_corpus": "harness/fuzz/seeds (one input per entry point x 3 flag patterns + the empty input)",
+        "seed_corpus": seeds,
         "note": "a libFuzzer campaign is pinned by -seed/-runs only approximately; the saved input is the reproducible unit"
     });
     if let Some(e) = v["coverage"]["evaluations"].as_u64() {
